@@ -130,6 +130,11 @@ def w_pair(p):
     import darsia
 
     a, b = np.zeros(W_SHAPE), np.zeros(W_SHAPE)
+    # "<P>t": the same pair on a domain of the same voxel COUNT and the same voxel VOLUME but another
+    # aspect ratio (voxels 0.125 x 0.5 instead of 0.25 x 0.25) -- anything kept between distance
+    # computations and keyed by shape and cell volume alone would be taken for the other geometry
+    stretched = p.endswith("t")
+    p = p[:2]
     if p == "P1":
         a[0, 0] = 4
         b[3, 4] = 4
@@ -144,6 +149,8 @@ def w_pair(p):
     else:
         raise KeyError(p)
     kw = dict(width=1.25, height=1.0, space_dim=2, scalar=True)
+    if stretched:
+        kw.update(width=2.5, height=0.5)
     return darsia.Image(a, **kw), darsia.Image(b, **kw)
 
 
@@ -328,9 +335,9 @@ def group_spec(g, tier):
         o = g[2:]
         ops = [op_w(o, p) for p in ("P1", "P2", "P3")]
         if o == "Wn-d":
-            ops.append(op_wf("newton", "P1"))
+            ops += [op_wf("newton", "P1"), op_wf("newton", "P1t")]
         if o == "Wb-d":
-            ops.append(op_wf("bregman", "P2"))
+            ops += [op_wf("bregman", "P2"), op_wf("bregman", "P2t")]
         return [o], ops, "replay"
     if g == "w-shared-options":
         return ["OPTS"], [op_ws("newton", "P1"), op_ws("bregman", "P1"), op_ws("bregman", "P2"), op_ws("newton", "P2")], "replay"
